@@ -1,9 +1,175 @@
 import Driver.Util
+import MpcVerif.Model.Conn
+
+/-!
+Line protocol of C11 (one line = one direction of one duplex session):
+
+  c11 <mode> <frag> <kinds> <ops>
+
+* mode  `frag` (harness transport; everything is compared) or `pipe`
+        (real `p2p.Pipe`; only schedule-independent fields are printed)
+* frag  `one` | `all` | `c<a>,<b>,…` (cycle) | `r<seed>.<max>` (hashed 1..max)
+* kinds string over `bhwdslz` — the typed receives the peer performs (`-` none)
+* ops   `;`-separated sender operations (`-` none):
+        `b<hex2>` `h<n>` `w<n>` `d<len>.<seed>` `s<len>.<seed>` `l<hex32>`
+        `z<n>/<n>/…` `Z<len>.<seed>` (hashed size list) `f` (Flush) `n<count>` (NeedSpace)
+  payload byte i of `d/s` is `((seed + i) * 0x9E3779B97F4A7C15) >> 56`.
+-/
 
 namespace Drv.C11
+open Mpc.Conn
 
-/-- Line-protocol handler of property C11 (stub). -/
-def handle (_args : List String) : String := "bad-op"
+def fnv1a (b : ByteArray) (h : UInt64 := 0xcbf29ce484222325) : UInt64 :=
+  b.foldl (fun h x => (h ^^^ x.toUInt64) * 0x100000001b3) h
+
+def pattern (seed : UInt64) (len : Nat) : ByteArray := Id.run do
+  let mut out := ByteArray.emptyWithCapacity len
+  let mut x : UInt64 := seed * 0x9E3779B97F4A7C15
+  for _ in [0:len] do
+    out := out.push (x >>> 56).toUInt8
+    x := x + 0x9E3779B97F4A7C15
+  return out
+
+def hexDigit (n : Nat) : Char :=
+  if n < 10 then Char.ofNat (48 + n) else Char.ofNat (87 + n)
+
+def hexOfNat (n width : Nat) : String :=
+  String.ofList ((List.range width).map fun i => hexDigit ((n >>> (4 * (width - 1 - i))) % 16))
+
+def hex64 (x : UInt64) : String := hexOfNat x.toNat 16
+
+def parseHexNat (s : String) : Option Nat :=
+  s.toList.foldlM (fun acc c =>
+    if '0' ≤ c ∧ c ≤ '9' then some (acc * 16 + (c.toNat - 48))
+    else if 'a' ≤ c ∧ c ≤ 'f' then some (acc * 16 + (c.toNat - 87))
+    else none) 0
+
+def splitmix (z : UInt64) : UInt64 :=
+  let z := (z ^^^ (z >>> 30)) * 0xBF58476D1CE4E5B9
+  let z := (z ^^^ (z >>> 27)) * 0x94D049BB133111EB
+  z ^^^ (z >>> 31)
+
+def parseFrag (s : String) : Option Frag :=
+  if s == "one" then some fun _ => 1
+  else if s == "all" then some fun _ => 1 <<< 40
+  else match s.toList with
+    | 'c' :: rest =>
+      match ((String.ofList rest).splitOn ",").mapM String.toNat? with
+      | some (x :: xs) =>
+        let arr := (x :: xs).toArray
+        some fun i => arr[i % arr.size]!
+      | _ => none
+    | 'r' :: rest =>
+      match (String.ofList rest).splitOn "." with
+      | [a, b] =>
+        match a.toNat?, b.toNat? with
+        | some seed, some mx =>
+          if mx = 0 then none else
+          some fun i => 1 + (splitmix (UInt64.ofNat seed ^^^ (UInt64.ofNat i * 0x9E3779B97F4A7C15))).toNat % mx
+        | _, _ => none
+      | _ => none
+    | _ => none
+
+def parseKind (c : Char) : Option Kind :=
+  match c with
+  | 'b' => some .byte | 'h' => some .u16 | 'w' => some .u32 | 'd' => some .data
+  | 's' => some .str | 'l' => some .label | 'z' => some .sizes | _ => none
+
+def parseKinds (s : String) : Option (List Kind) :=
+  if s == "-" then some [] else s.toList.mapM parseKind
+
+def parsePayload (s : String) : Option ByteArray :=
+  match s.splitOn "." with
+  | [a, b] => match a.toNat?, b.toNat? with
+    | some len, some seed => some (pattern (UInt64.ofNat seed) len)
+    | _, _ => none
+  | _ => none
+
+def patternSizes (seed : UInt64) (n : Nat) : List Nat :=
+  (List.range n).map fun i =>
+    let h := splitmix (seed ^^^ (UInt64.ofNat i * 0x9E3779B97F4A7C15))
+    match (h >>> 62).toNat with
+    | 0 => 0
+    | 1 => 1
+    | 2 => 4294967295
+    | _ => (h &&& 0xffffffff).toNat
+
+def parseOp (s : String) : Option Op :=
+  match s.toList with
+  | ['f'] => some .flush
+  | 'n' :: rest => (String.ofList rest).toNat?.map .needSpace
+  | 'b' :: rest => (parseHexNat (String.ofList rest)).map fun n => .send (.byte (UInt8.ofNat n))
+  | 'h' :: rest => (String.ofList rest).toNat?.map fun n => .send (.u16 n)
+  | 'w' :: rest => (String.ofList rest).toNat?.map fun n => .send (.u32 n)
+  | 'd' :: rest => (parsePayload (String.ofList rest)).map fun d => .send (.data d)
+  | 's' :: rest => (parsePayload (String.ofList rest)).map fun d => .send (.str d)
+  | 'l' :: rest => (parseHexNat (String.ofList rest)).map fun n => .send (.label n)
+  | 'Z' :: rest =>
+    match (String.ofList rest).splitOn "." with
+    | [a, b] => match a.toNat?, b.toNat? with
+      | some len, some seed => some (.send (.sizes (patternSizes (UInt64.ofNat seed) len)))
+      | _, _ => none
+    | _ => none
+  | 'z' :: rest =>
+    if rest.isEmpty then some (.send (.sizes []))
+    else (((String.ofList rest).splitOn "/").mapM String.toNat?).map fun l => .send (.sizes l)
+  | _ => none
+
+def parseOps (s : String) : Option (List Op) :=
+  if s == "-" then some [] else (s.splitOn ";").mapM parseOp
+
+def showVal : Val → String
+  | .byte b => "b" ++ hexOfNat b.toNat 2
+  | .u16 n => s!"h{n}"
+  | .u32 n => s!"w{n}"
+  | .data d => s!"d{d.size}.{hex64 (fnv1a d)}"
+  | .str d => s!"s{d.size}.{hex64 (fnv1a d)}"
+  | .label n => "l" ++ hexOfNat n 32
+  | .sizes l =>
+    if l.length > 8 then s!"Z{l.length}.{hex64 (fnv1a (l.foldl (fun acc x => acc ++ be 4 x) ByteArray.empty))}"
+    else "z" ++ "/".intercalate (l.map toString)
+
+def showErr : Option Err → String
+  | none => "-"
+  | some .eof => "eof"
+  | some .bufFull => "buffull"
+  | some .stuck => "stuck"
+
+/-- run-length encoded list of chunk lengths: `len*count,len*count,…` -/
+def rle (l : List Nat) : String :=
+  let rec go (l : List Nat) (cur : Nat) (cnt : Nat) (acc : List String) : List String :=
+    match l with
+    | [] => (s!"{cur}*{cnt}" :: acc).reverse
+    | x :: xs => if x == cur then go xs cur (cnt + 1) acc else go xs x 1 (s!"{cur}*{cnt}" :: acc)
+  match l with
+  | [] => "-"
+  | x :: xs => ",".intercalate (go xs x 1 [])
+
+/-- The writer schedule used by the driver.  Any choice gives the same result
+(`C11_conn_sched_indep`); the Go scheduler picks its own. -/
+def drvSched : Sched := fun i => (i * 7 + 1) % 4
+
+def handle (args : List String) : String :=
+  match args with
+  | [mode, frag, kinds, ops] =>
+    match parseFrag frag, parseKinds kinds, parseOps ops with
+    | some frag, some kinds, some ops =>
+      let s0 := Sender.init.run drvSched ops
+      let pre := s!"{s0.sent},{s0.flushed},{s0.cur.size}"
+      let s := s0.close drvSched
+      let stream := s.wire.foldl (· ++ ·) ByteArray.empty
+      let (vals, r, err) := (Recv.init stream).recvAll frag kinds
+      let rv := if vals.isEmpty then "-" else ",".intercalate (vals.map showVal)
+      let common := s!"pre={pre};sent={s.sent};fl={s.flushed};tot={stream.size};rv={rv};err={showErr err}"
+      if mode == "pipe" then
+        if err.isNone then s!"{common};rc={r.recvd}" else common
+      else
+        let full := s!"w={rle (s.wire.map (·.size))};wh={hex64 (fnv1a stream)};{common}"
+        if err.isNone then
+          s!"{full};rd={r.nread},{hex64 r.rlog};rc={r.recvd};left={r.window.size},{r.pending.size},{hex64 (fnv1a r.pending (fnv1a r.window))}"
+        else full
+    | _, _, _ => "bad-op"
+  | _ => "bad-op"
 
 end Drv.C11
 
